@@ -172,7 +172,8 @@ def reluctant_repeat(ctx):
                 _rec(d, "zero-iterations-first", p.end == "return" and r == "Option::Some{0: a1.start}" and not mi, "with min == 0 the first result must be the start position itself (no iteration), before the repeated term is tried; found %s" % r[:80], loc)
                 continue
         _rec(d, "start-not-re-yielded", r != "Option::Some{0: a1.start}", "the start position is yielded again outside the first call with min == 0", loc)
-        last_none = "variant(last(a1.iterations))=None" in gs
+        lv = [g for g in gs if g.startswith("variant(last(a1.iterations))=")]
+        last_none = bool(lv) and lv[0].endswith("=None")  # the first look at the stack (a later one is the yield)
         here = "a1.start" if last_none else _LAST + ".position"
         M = "matches_iter(a1.operation, a1.matcher, %s)" % here
         if len(mi) > 1:
@@ -206,14 +207,11 @@ def reluctant_repeat(ctx):
                 continue
             _rec(d, "backtrack-advances-innermost", (_TOP + ".position", "next(%s.matches) as Some.0" % _TOP) in st and ("Vec::pop", [_IT]) not in cs, "the next match of the innermost iteration must become its position", loc)
         if p.end == "return":
-            _rec(d, "yield-needs-min-iterations", gs[-1] == "!lt(len(a1.iterations), a1.min)", "a position is yielded without testing iterations >= min (last guard %s)" % gs[-1:], loc)
-            m = re.match(r"^Option::map\(last\(a1\.iterations\), closure (.*)\[\]\)$", r)
-            cb = ctx.body(RR_NEXT + "::{closure#0}") if m else None
-            good = False
-            if cb is not None:
-                rs = {_sh(render(q.ret)) for q in ctx.walk(cb).paths}
-                good = rs == {"a2.position"}
-            _rec(d, "yield-innermost-position", good, "the yielded value must be the innermost iteration's position; found %s" % r[:100], loc)
+            tail = [g for g in gs if not g.startswith("variant(last(a1.iterations))=")]
+            _rec(d, "yield-needs-min-iterations", tail[-1:] == ["!lt(len(a1.iterations), a1.min)"], "a position is yielded without testing iterations >= min (last guard %s)" % tail[-1:], loc)
+            if gs[-1] == "variant(last(a1.iterations))=None" and r == "Option::None":
+                continue  # `last()` of the stack that was just pushed to or advanced: not empty in fact
+            _rec(d, "yield-innermost-position", r == "Option::Some{0: %s.position}" % _LAST, "the yielded value must be the innermost iteration's position; found %s" % r[:100], loc)
         elif p.end.startswith("loop"):
             _rec(d, "below-min-continues", gs[-1] == "lt(len(a1.iterations), a1.min)", "the turn ends without yielding although min iterations are reached (last guard %s)" % gs[-1:], loc)
     N = "op_repeat::ReluctantRepeatIterator::new"
